@@ -14,7 +14,7 @@ use crate::util::{Rng, J};
 use lzma_rs::decompress::raw::Lzma2Decoder;
 use lzma_rs::decompress::UnpackedSize;
 
-const TRAIL_NAMES: [&str; 5] = ["none", "one 0x00", "one 0xFF", "random 1-64", "another stream"];
+const TRAIL_NAMES: [&str; 8] = ["none", "one 0x00", "one 0xFF", "random 1-64", "another stream", "zero bytes x 4k (what the container format calls padding)", "zero bytes, other counts", "container magic / header-like bytes"];
 const API_NAMES: [&str; 6] = [
     "lzma header-size",
     "lzma provided-size",
@@ -33,7 +33,23 @@ fn trailing(rng: &mut Rng, which: usize, again: &[u8]) -> Vec<u8> {
             let n = rng.range(1, 64) as usize;
             rng.bytes(n)
         }
-        _ => again.to_vec(),
+        4 => again.to_vec(),
+        5 => vec![0; 4 * rng.range(1, 16) as usize],
+        6 => vec![0; *rng.pick(&[2usize, 3, 5, 6, 7, 9, 13, 63, 65])],
+        _ => {
+            let mut v = match rng.below(4) {
+                0 => vec![0xFD, b'7', b'z', b'X', b'Z', 0x00],
+                1 => vec![0xFD, b'7', b'z', b'X', b'Z', 0x00, 0x00, 0x01, 0x69, 0x22, 0xDE, 0x36],
+                2 => vec![0x59, 0x5A],
+                _ => vec![0x5D, 0x00, 0x00, 0x10, 0x00, 0xFF, 0xFF, 0xFF, 0xFF, 0xFF, 0xFF, 0xFF, 0xFF],
+            };
+            if rng.chance(1, 3) {
+                let mut z = vec![0u8; 4 * rng.range(1, 3) as usize];
+                z.append(&mut v);
+                v = z;
+            }
+            v
+        }
     }
 }
 
@@ -116,7 +132,7 @@ fn fam_lzma(ctx: &CaseCtx, cov: &mut Cov) -> CaseOut {
         None => return out,
     };
     let len = enc.output.len() as u64;
-    let which = rng.usize_below(5);
+    let which = rng.usize_below(TRAIL_NAMES.len());
     let t = trailing(&mut rng, which, &enc.payload);
     cov.inc("trailing", which as u32);
     for rk in readers(&mut rng) {
@@ -226,7 +242,7 @@ fn fam_lzma2(ctx: &CaseCtx, cov: &mut Cov) -> CaseOut {
             return out;
         }
     };
-    let which = rng.usize_below(5);
+    let which = rng.usize_below(TRAIL_NAMES.len());
     let t = trailing(&mut rng, which, &w.bytes);
     cov.inc("trailing", which as u32);
     let mut input = w.bytes.clone();
@@ -431,7 +447,7 @@ fn floors(_: Tier, cov: &Cov) -> Vec<String> {
     if cov.get_named("exact_range.payloads_with_final_range_2^24") < 10 {
         m.push("fewer than 10 payloads with final range == 2^24 constructed".into());
     }
-    if cov.group_nonzero("api") < 6 || cov.group_nonzero("trailing") < 5 {
+    if cov.group_nonzero("api") < 6 || cov.group_nonzero("trailing") < 8 {
         m.push("not all entry points / trailing kinds exercised".into());
     }
     m
@@ -441,7 +457,7 @@ pub fn monitor(tier: Tier) -> Monitor {
     Monitor {
         id: "C11",
         level: "exploration",
-        rule: "cases = valid payload (incl. payloads constructed so that the range coder's range register is exactly 2^24 after the last symbol; LZMA size-bounded via header / provided size / raw decoder; LZMA2 via one-shot / raw decoder / embedded in .xz) || trailing bytes (none, 0x00, 0xFF, random 1-64, a second copy of the payload) x 6 reader kinds; the reader's logical position after Ok must equal the payload length computed by the reference encoder; conversely marker-terminated .lzma and .xz with trailing bytes must fail; distinct by hash of (input, api, reader)",
+        rule: "cases = valid payload (incl. payloads constructed so that the range coder's range register is exactly 2^24 after the last symbol; LZMA size-bounded via header / provided size / raw decoder; LZMA2 via one-shot / raw decoder / embedded in .xz) || trailing bytes (none, 0x00, 0xFF, random 1-64, a second copy of the payload, 4k zero bytes, other zero runs, container magic / header-like bytes, also behind zero runs) x 6 reader kinds; the reader's logical position after Ok must equal the payload length computed by the reference encoder; conversely marker-terminated .lzma and .xz with trailing bytes must fail; distinct by hash of (input, api, reader)",
         assumptions: vec![
             "payload length = reference encoder output (eager normalisation + 5-byte flush), which the self-check shows liblzma's LZMA2 decoder accepts only when exact".into(),
             "size-bounded streams that also carry a marker are excluded (where the payload ends is ambiguous)".into(),
